@@ -1,9 +1,10 @@
 /-
-Proofs for `Kanzi/Model/BlockGen2.lean`, part 5: the side condition of the chain theorem is not an
-artefact — known finding F43.  Six SRT stages expand EVERY block of 1024 bytes to at least 2560 bytes (each
-stage writes a header of at least 256 bytes), more than the decoder's bound `maxTransformLength 1024 = 2304`
-on the pre-transform length: the encoding task succeeds, the decoding task answers "Invalid compressed
-block size".
+Proofs for `Kanzi/Model/BlockGen2.lean`, part 5: finding F43 and its repair.  Six SRT stages expand EVERY
+block of 1024 bytes to at least 2560 bytes (each stage writes a header of at least 256 bytes), more than the
+decoder's bound `maxTransformLength 1024 = 2304` on the pre-transform length.  Since fix F43 the encoder
+compares with that bound and stores such a block untransformed (`srt6_fallback`); without the comparison
+the encoding task succeeds and the decoding task answers "Invalid compressed block size"
+(`srt6_rejected_without_bs`).
 -/
 import Kanzi.Proofs.BlockGen2
 
@@ -85,47 +86,75 @@ theorem decodeTaskGen_prologue_size (c : Cfg) (B : Nat) (ds f post sum : Nat)
     simp only [Nat.mod_eq_of_lt hpost]
     rw [if_pos (Or.inr hbig)]
 
-/-- six SRT stages, blocks of 1024 bytes, any checksum width, entropy NONE: the encoding task succeeds
-and the decoding task of the same configuration rejects its output -/
-theorem srt6_rejected (ck obuf : Nat) (b : List Nat) (hb : ∀ x ∈ b, x < 256) (hlen : b.length = 1024) :
-    ∃ p, encodeTaskGen2 ⟨ck, kindTrs (List.replicate 6 Kind.srt), noneEnt, false⟩ obuf b = .ok p ∧
-      decodeTaskGen2 ⟨ck, kindTrs (List.replicate 6 Kind.srt), noneEnt, false⟩ 1024 p = .fail .size := by
+/-- six SRT stages on a block of 1024 bytes: the output of `Forward` has between 2560 and 8704 bytes, and
+`MaxEncodedLen` of the sequence is 8704 -/
+theorem srt6_forward (obuf : Nat) (b : List Nat) (hb : ∀ x ∈ b, x < 256) (hlen : b.length = 1024) :
+    seqMaxLen (trsOf (kindTrs (List.replicate 6 Kind.srt))) b.length = 8704 ∧
+    2560 ≤ (forwardOf (kindTrs (List.replicate 6 Kind.srt)) obuf b).1.length ∧
+    (forwardOf (kindTrs (List.replicate 6 Kind.srt)) obuf b).1.length ≤ 8704 := by
   have hne : b ≠ [] := by intro h; rw [h] at hlen; simp at hlen
-  have hcopy : isCopy (Cfg2.toCfg ⟨ck, kindTrs (List.replicate 6 Kind.srt), noneEnt, false⟩) b = false := by
+  have hreq : seqMaxLen (trsOf (kindTrs (List.replicate 6 Kind.srt))) b.length = 8704 := by
+    rw [hlen]; decide
+  refine ⟨hreq, ?_⟩
+  unfold forwardOf seqForward2
+  rw [if_neg (by omega), hreq]
+  have := srt_chain 8704 (growTo obuf 8704) (by unfold growTo; split <;> omega)
+    (by decide) (kindTrs (List.replicate 6 Kind.srt)) 0 true (initDt b) b 0xFF
+    (by intro t ht; simp [kindTrs] at ht; exact ht) hb hne (by rw [hlen]; decide)
+  rw [hlen] at this
+  have hl6 : (kindTrs (List.replicate 6 Kind.srt)).length = 6 := by decide
+  rw [hl6] at this
+  exact this
+
+/-- fix F43 at work: six SRT stages, blocks of 1024 bytes, a Writer with block size 1024 — for EVERY block
+the bound applies (`MaxEncodedLen` of the sequence and the transformed block both exceed
+`maxTransformLength 1024 = 2304`): the block is handed to the entropy coder untransformed, all stages flagged
+as skipped -/
+theorem srt6_fallback (obuf : Nat) (b : List Nat) (hb : ∀ x ∈ b, x < 256) (hlen : b.length = 1024) :
+    postOf (kindTrs (List.replicate 6 Kind.srt)) (some 1024) obuf b = (b, 0xFF) := by
+  obtain ⟨h1, h2, _⟩ := srt6_forward obuf b hb hlen
+  unfold postOf fallback
+  have hml : maxLengthOf (some 1024) = 2304 := by decide
+  rw [hml, h1, if_pos ⟨by omega, by omega⟩]
+
+/-- … and what happened before the fix (and still happens for a ctx WITHOUT a `uint` block size, which no
+Writer has): the six stages are applied, the encoding task succeeds, and the decoding task rejects its
+output with "Invalid compressed block size" -/
+theorem srt6_rejected_without_bs (ck obuf : Nat) (b : List Nat) (hb : ∀ x ∈ b, x < 256) (hlen : b.length = 1024) :
+    ∃ p, encodeTaskGen2 ⟨ck, kindTrs (List.replicate 6 Kind.srt), noneEnt, false, none⟩ obuf b = .ok p ∧
+      decodeTaskGen2 ⟨ck, kindTrs (List.replicate 6 Kind.srt), noneEnt, false, none⟩ 1024 p = .fail .size := by
+  have hcopy : isCopy (Cfg2.toCfg ⟨ck, kindTrs (List.replicate 6 Kind.srt), noneEnt, false, none⟩) b = false := by
     unfold isCopy
     simp [Cfg2.toCfg, hlen]
   unfold encodeTaskGen2 decodeTaskGen2
   rw [hcopy]
   simp only [Bool.false_eq_true, if_false]
-  -- the sizes
-  have hreq : seqMaxLen (trsOf (kindTrs (List.replicate 6 Kind.srt))) b.length = 1024 + 1280 * 6 := by
-    rw [hlen]; decide
-  generalize hFdef : seqForward2 (kindTrs (List.replicate 6 Kind.srt))
-    (seqMaxLen (trsOf (kindTrs (List.replicate 6 Kind.srt))) b.length)
-    (growTo obuf (seqMaxLen (trsOf (kindTrs (List.replicate 6 Kind.srt))) b.length)) (initDt b) b = F
-  have hFl : 1024 + 256 * 6 ≤ F.1.length ∧ F.1.length ≤ 1024 + 1280 * 6 := by
-    rw [← hFdef]
-    unfold seqForward2
-    rw [if_neg (by omega), hreq]
-    have := srt_chain (1024 + 1280 * 6) (growTo obuf (1024 + 1280 * 6)) (by unfold growTo; split <;> omega)
-      (by decide) (kindTrs (List.replicate 6 Kind.srt)) 0 true (initDt b) b 0xFF
-      (by intro t ht; simp [kindTrs] at ht; exact ht) hb hne (by rw [hlen]; decide)
-    rw [hlen] at this
-    exact this
+  obtain ⟨hreq, hlo, hhi⟩ := srt6_forward obuf b hb hlen
+  have hP : postOf (kindTrs (List.replicate 6 Kind.srt)) none obuf b =
+      forwardOf (kindTrs (List.replicate 6 Kind.srt)) obuf b := by
+    unfold postOf fallback
+    have hml : maxLengthOf none = 2 ^ 30 := rfl
+    rw [hml, hreq, if_neg (by omega)]
+  unfold encodeWith2
+  rw [hP]
+  generalize hFdef : forwardOf (kindTrs (List.replicate 6 Kind.srt)) obuf b = F at hlo hhi
   have hpost32 : F.1.length < 2 ^ 32 := by omega
   obtain ⟨hflt, hflow⟩ := seqForward2_flags_shape (kindTrs (List.replicate 6 Kind.srt))
     (seqMaxLen (trsOf (kindTrs (List.replicate 6 Kind.srt))) b.length)
     (growTo obuf (seqMaxLen (trsOf (kindTrs (List.replicate 6 Kind.srt))) b.length)) (initDt b) b (by decide)
-  rw [hFdef] at hflt hflow
+  have hF : forwardOf (kindTrs (List.replicate 6 Kind.srt)) obuf b =
+      seqForward2 (kindTrs (List.replicate 6 Kind.srt))
+        (seqMaxLen (trsOf (kindTrs (List.replicate 6 Kind.srt))) b.length)
+        (growTo obuf (seqMaxLen (trsOf (kindTrs (List.replicate 6 Kind.srt))) b.length)) (initDt b) b := rfl
+  rw [← hF, hFdef] at hflt hflow
   have he : noneEnt.enc F.1 = some (EntSmall.nullEncode F.1) := rfl
-  refine ⟨_, encodeWith2_eq _ noneEnt _ _ obuf b _ F hFdef.symm hpost32 he, ?_⟩
+  refine ⟨_, encodeOf_eq false _ noneEnt _ _ F _ hpost32 he, ?_⟩
   have hds1 := dataSizeOf_pos F.1.length
   have hds4 := dataSizeOf_le _ hpost32
   have hpow := lt_pow_dataSizeOf F.1.length
   have hm := modeOK_encodeMode false (dataSizeOf F.1.length) F.2
     (kindTrs (List.replicate 6 Kind.srt)).length hds1 hds4 hflt
     (fun h4 => flags_low_nibble _ hflt _ h4 hflow)
-  rw [← mode0_false] at hm
   exact decodeTaskGen_prologue_size _ 1024 _ _ _ _ _ _ _ hm hds1 hflt hpow
     (by have : maxTransformLength 1024 = 2304 := by decide
         omega) rfl
